@@ -811,6 +811,10 @@ def detail(law: str, ts: list[Any]) -> str:
         elif isinstance(res, T.UninhabitedType):
             rk = "Never"
         bits.append("->" + rk)
+        if (fam == "meet-lb" and all(isinstance(p, T.Instance) for p in ps) and isinstance(res, T.Instance) and res.args
+                and any(isinstance(T.get_proper_type(a), T.UninhabitedType) for a in res.args)
+                and not any(isinstance(T.get_proper_type(a), T.UninhabitedType) for p in ps for a in p.args)):  # type: ignore[union-attr]
+            bits.append("argument-met-to-Never")   # G[X] ^ G[Y] = G[Never] for an invariant parameter: not below G[X]
         if all(isinstance(p, T.CallableType) for p in ps) and isinstance(res, T.CallableType):
             a, b = _callable_shape(ps[0]), _callable_shape(ps[1])
             if [k for k, _ in a] != [k for k, _ in b]:
